@@ -286,18 +286,24 @@ impl DBInner {
 
         macro_rules! check_meta {
             ($func:ident) => {{
-                let meta1 = Page::from_buf(&data, 0, self.pagesize).$func();
+                // A page that does not even claim to be a meta page is a damaged meta page,
+                // not a reason to panic: treat it like a bad checksum and use the other one.
+                let page1 = Page::from_buf(&data, 0, self.pagesize);
+                let meta1 = (page1.page_type == Page::TYPE_META).then(|| page1.$func());
+                let valid1 = meta1.map_or(false, |m| m.valid());
                 // Double check that we have the right pagesize before we read the second page.
-                if meta1.valid() && meta1.pagesize != self.pagesize {
+                if let (true, Some(meta1)) = (valid1, meta1) {
                     assert_eq!(
                         meta1.pagesize, self.pagesize,
                         "Invalid pagesize from meta1 {}. Expected {}.",
                         meta1.pagesize, self.pagesize
                     );
                 }
-                let meta2 = Page::from_buf(&data, 1, self.pagesize).$func();
-                match (meta1.valid(), meta2.valid()) {
-                    (true, true) => {
+                let page2 = Page::from_buf(&data, 1, self.pagesize);
+                let meta2 = (page2.page_type == Page::TYPE_META).then(|| page2.$func());
+                let valid2 = meta2.map_or(false, |m| m.valid());
+                match (meta1.filter(|_| valid1), meta2.filter(|_| valid2)) {
+                    (Some(meta1), Some(meta2)) => {
                         assert_eq!(
                             meta1.pagesize, self.pagesize,
                             "Invalid pagesize from meta1 {}. Expected {}.",
@@ -314,7 +320,7 @@ impl DBInner {
                             Some(meta2)
                         }
                     }
-                    (true, false) => {
+                    (Some(meta1), None) => {
                         assert_eq!(
                             meta1.pagesize, self.pagesize,
                             "Invalid pagesize from meta1 {}. Expected {}.",
@@ -322,7 +328,7 @@ impl DBInner {
                         );
                         Some(meta1)
                     }
-                    (false, true) => {
+                    (None, Some(meta2)) => {
                         assert_eq!(
                             meta2.pagesize, self.pagesize,
                             "Invalid pagesize from meta2 {}. Expected {}.",
@@ -330,7 +336,7 @@ impl DBInner {
                         );
                         Some(meta2)
                     }
-                    (false, false) => None,
+                    (None, None) => None,
                 }
             }};
         }
